@@ -1,5 +1,6 @@
 """C10 — lookup queries are sound and complete."""
 from props.kernel_check import run_kernel
+from vlib import probes
 
 
 def run(ctx):
@@ -7,3 +8,5 @@ def run(ctx):
         dict(profile="c10", kind="poly", traces=(64, 1000), ops=30, queries=0),
         dict(profile="c10", kind="tet", traces=(32, 400), ops=30, queries=0),
     ], level_when_proved="other")
+    ctx.coverage.update(probes.probe(ctx, "C10", "F11", "F11:parallel-edge-hides-face",
+                                     "find_halfface(vertices) misses a face when a parallel duplicate edge joins its first two vertices"))
